@@ -449,6 +449,11 @@ def run(ctx, repo, tier):
         verdict = None
         if app and app[0].args:
             e_ = cn.expand(app[0].args[0])
+            if isinstance(e_, ast.Call) and isinstance(e_.func, ast.Attribute) and isinstance(e_.func.value, ast.Name) and \
+                    e_.func.value.id in ("self", "cls", er.name):
+                # the extraction may live in a small (static) helper of the reader
+                from ..astutil import inline_self_methods as _ism
+                e_ = cn.expand(_ism(er, e_))
             if isinstance(e_, ast.Subscript) and isinstance(e_.value, ast.Call) and isinstance(e_.value.func, ast.Attribute) and \
                     e_.value.func.attr == "split" and len(e_.value.args) == 1 and isinstance(e_.value.args[0], ast.Constant) and \
                     e_.value.args[0].value == '"':
